@@ -1,6 +1,8 @@
 #!/bin/bash
-# run every claimed quick check on the current tree (evidence is rewritten by each)
+# full setup (root library build, as a fresh restore does it), then every claimed quick check on the current tree
+# (evidence is rewritten by each)
 cd /verif
+./check --setup 2>&1 | grep -E "^(translate|lake build|harness build)" 
 for p in $(python3 -c "import json; print(' '.join(c['property_id'] for c in json.load(open('MANIFEST.json'))['checks']))"); do
-  ./check $p --tier ${1:-quick} 2>/dev/null | grep -E "^C[0-9]+ |VIOLATION|KNOWN|ERROR"
+  ./check $p --tier ${1:-quick} 2>/dev/null | grep -E "^C[0-9]+ |VIOLATION|KNOWN|ERROR" | cut -c1-260
 done
